@@ -1550,9 +1550,11 @@ SoPlexBase<R>& SoPlexBase<R>::operator=(const SoPlexBase<R>& rhs)
       {
          if(_rationalLP != nullptr)
          {
-            clearLPRational();
             _rationalLP->~SPxLPRational();
             spx_free(_rationalLP);
+            _rationalLUSolver.clear();
+            _rowTypes.clear();
+            _colTypes.clear();
          }
 
          _rationalLP = nullptr;
